@@ -399,7 +399,12 @@ func (req *Request) write(w io.Writer, usingProxy bool, extraHeaders Header) err
 			}
 		}
 	}
-	// TODO(bradfitz): escape at least newlines in ruri?
+	// Nothing a client supplied may change the structure of the message written to the
+	// backend: refuse what cannot be written as one well-formed HTTP/1.1 request
+	// (same checks as net/http's Request.write / Transport.roundTrip).
+	if err := validateForWrite(valueOrDefault(req.Method, "GET"), ruri, host, req.Header); err != nil {
+		return err
+	}
 
 	// Wrap the writer in a bufio Writer if it's not already buffered.
 	// Don't always call NewWriter, as that forces a bytes.Buffer
@@ -467,6 +472,30 @@ func (req *Request) write(w io.Writer, usingProxy bool, extraHeaders Header) err
 
 	if bw != nil {
 		return bw.Flush()
+	}
+	return nil
+}
+
+// validateForWrite reports whether method, request-target, host and header field
+// names can be written on the wire without changing the structure of the message.
+func validateForWrite(method, ruri, host string, header Header) error {
+	if method == "" || strings.IndexFunc(method, isNotToken) != -1 {
+		return fmt.Errorf("http: invalid method %q", method)
+	}
+	for i := 0; i < len(ruri); i++ {
+		if b := ruri[i]; b <= ' ' || b == 0x7f {
+			return fmt.Errorf("http: invalid byte %#x in Request-URI %q", b, ruri)
+		}
+	}
+	for i := 0; i < len(host); i++ {
+		if b := host[i]; b < ' ' || b == 0x7f {
+			return fmt.Errorf("http: invalid byte %#x in Host %q", b, host)
+		}
+	}
+	for k := range header {
+		if k == "" || strings.IndexFunc(k, isNotToken) != -1 {
+			return fmt.Errorf("http: invalid header field name %q", k)
+		}
 	}
 	return nil
 }
